@@ -40,7 +40,7 @@ def replay_schedule(pid, sig, detail, path):
     mod = importlib.import_module(f"gvlib.checks.{pid.lower()}")
     name = detail["scenario"]
     scn = mod.SCENARIOS[name]
-    horizon = 600 if pid == "C30" else 140
+    horizon = detail.get("horizon") or (600 if pid == "C30" else 100)
     a = schedx.run_exec(binary, detail["script"], detail["prefix"], horizon)
     b = schedx.run_exec(binary, detail["script"], detail["prefix"], horizon)
     if a["end"].startswith(("PROCESS", "BAD", "DIVERGED")) or schedx.canon(a) != schedx.canon(b):
